@@ -144,6 +144,8 @@ def run(ctx):
     _corners(rc)
     res.assumptions += ["knees ascending valid indices", "real-number reading of the IoU"]
     res.not_decided += ["idempotence is a corollary of W1 / W2 (the predicate depends on points and the knee only), not separately checked"]
+    from .common import hidden_state as _hidden_state
+    _hidden_state(rc, "W5", ['postprocessing.filter_worst_knees', 'postprocessing.filter_corner_knees', 'postprocessing.select_corner_knees'], "worst-knee and corner filters")
     res.require_instances("C13 obligations", len(res.obligations), 12)
 
 
